@@ -326,6 +326,9 @@ fn record_get(out: &mut ExecOut, decl: &str, shape: ShapeId, fmt: Format, api: A
     if r.log_a.eintr > 0 && r.a.is_ok() {
         out.probe("probe.eintr_retried_then_ok");
     }
+    if r.twin_panicked {
+        out.probe("probe.format_library_panicked_under_the_twin_no_verdict");
+    }
     if r.used_fallthrough {
         out.probe("probe.untagged_fallthrough_modelled");
     }
